@@ -93,10 +93,12 @@ type FuncEnc struct {
 	blockTargets map[*ssa.BasicBlock]map[string][]ssa.Value
 	curTarget    ssa.Value
 	loadTop      string
+	loadAddr     string
 	verTop       map[string]string
 	guardedVals  map[string]string
 	deferKey     map[*ssa.Defer]string
 	blockReach   map[*ssa.BasicBlock][]*reachInfo
+	knownVars    map[string]string
 }
 
 func (fe *FuncEnc) sorts() *Sorts { return fe.eng.sorts }
@@ -162,6 +164,10 @@ func (fe *FuncEnc) oblige1(st *State, kind, label, goal string, pos token.Pos, d
 			fe.assume(st, goal)
 			return
 		}
+	}
+	if c := fe.root().c; c != nil && c.AssumePre && kind == "pre" {
+		fe.assume(st, goal)
+		return
 	}
 	if fe.recording || goal == "true" {
 		if !fe.recording && goal == "true" {
@@ -269,6 +275,7 @@ func (fe *FuncEnc) Encode() (err error) {
 	fe.run()
 	// pass 2: the real thing
 	fe.recording = false
+	fe.knownVars = fe.heapSorts
 	fe.reset()
 	fe.run()
 	return nil
@@ -442,6 +449,7 @@ func (fe *FuncEnc) run() {
 	st.allocTop = fe.sc.declareNamed("allocTop@0", sInt)
 	st.ep.top = st.allocTop
 	fe.assume(st, "(>= "+st.allocTop+" 0)")
+	fe.assume(st, "(<= (hv_base hv_globals) "+st.allocTop+")")
 	// parameters
 	fe.params = map[string]EV{}
 	for _, p := range fn.Params {
@@ -458,6 +466,11 @@ func (fe *FuncEnc) run() {
 		fe.assume(st, "(not (= "+t+" 0))")
 	}
 	fe.eng.emitAxioms(fe, st)
+	// every heap variable the function is known to touch (from the recording pass)
+	// exists from the start, so that frames of calls without a contract can keep it
+	for _, n := range sortedKeys(fe.knownVars) {
+		fe.heapGetQuiet(st, n, fe.knownVars[n])
+	}
 	fe.entry = st.clone()
 	// preconditions
 	if fe.c != nil {
@@ -514,10 +527,28 @@ func (fe *FuncEnc) run() {
 // allocation top at the time that version was created (pointers stored in it
 // cannot be younger); otherwise the current top.
 func (fe *FuncEnc) factTop(st *State) string {
-	if fe.loadTop != "" {
-		return fe.loadTop
-	}
 	return st.allocTop
+}
+
+// versionFact: a pointer found in a cell that already existed when the heap
+// version it was read from was created is no younger than that version. (Cells
+// of objects allocated later hold unconstrained junk in that version: a callee
+// that allocates does not produce a new version of the variables it only
+// initialises.)
+func (fe *FuncEnc) versionFact(term string, t types.Type) string {
+	if fe.loadTop == "" || fe.loadAddr == "" {
+		return "true"
+	}
+	var target string
+	switch t.Underlying().(type) {
+	case *types.Pointer, *types.Map:
+		target = term
+	case *types.Slice:
+		target = "(hv_org " + term + ")"
+	default:
+		return "true"
+	}
+	return fmt.Sprintf("(=> (<= (hv_base %s) %s) (<= (hv_base %s) %s))", fe.loadAddr, fe.loadTop, target, fe.loadTop)
 }
 
 func (fe *FuncEnc) typeFacts(st *State, term string, t types.Type) string {
